@@ -53,6 +53,9 @@ type Announce struct {
 	Reply           string // kind of the reply given
 	ReplyOK         bool
 	ConsumedOfReply int64  // oversize replies: bytes of this reply the client actually read
+	// NearTimeout: the client left an unanswered request about when its own time-out was due: its
+	// time-out (a failure) or a cancel just before it; what it does next tells which
+	NearTimeout bool
 	RetryIn         string // "retry in" value sent with a failure reply
 	Ambiguous       bool   // cannot tell a client-side cancel from a time-out
 	Cancelled       bool   // the client abandoned the request well before its own time-out (a cancel, not a failure)
@@ -118,6 +121,7 @@ func (t *TrackerActor) record(a Announce) {
 		case dt < t.ClientTimeout+300*time.Millisecond:
 			// could be the client's time-out (a failure) or a cancel just before it
 			a.Ambiguous = a.Reply == "noreply" || strings.Contains(a.Reply, "client gone")
+			a.NearTimeout = a.Ambiguous
 		}
 	}
 	if a.Proto == "http" && a.ReplyOK && t.ClientTimeout > 0 && simrt.Now()-a.At+t.LatSlack+300*time.Millisecond >= t.ClientTimeout {
